@@ -367,7 +367,11 @@ class Gen:
             if pat != lf["params"]:
                 raise Undecided("%s: lifted closure takes |%s|, the unit expects |%s|" % (key, parts[0], ", ".join(lf["params"])))
             cb_off = op + 1 + body[op + 1:cl].index(parts[1])
-            lifted.append((lf, parts[1], line_of(s.text, f["body_open"] + cb_off)))
+            cbody_ = parts[1]
+            for nm_ in lf.get("deref", []):
+                # a variable the closure captured by mutable reference is a `&mut` parameter of the lifted method
+                cbody_ = re.sub(r"(?<![\w*])(?<!\w\.)%s\b" % re.escape(nm_), "(*%s)" % nm_, cbody_)
+            lifted.append((lf, cbody_, line_of(s.text, f["body_open"] + cb_off)))
             self.fidelity.append(dict(rule="R-lift", file=s.path, line=body_line + body.count("\n", 0, hits[0].start()), item=key,
                                       before=re.sub(r"\s+", " ", body[hits[0].start():op + 1 + len(args[0]) + 1]) + " |%s| { ... })" % parts[0],
                                       after=lf["replace"] + "  +  " + lf["sig"],
